@@ -1,7 +1,412 @@
+//! C14 — similarity estimators are total, symmetric and exact on their inputs
 use crate::common::*;
+use crate::gen::*;
+use crate::sk::setsketch_a_q;
+use fnv::FnvHasher;
+use probminhash::jaccard;
+use probminhash::setsketcher::{MleJaccard, SetSketchParams, SetSketcher};
+use probminhash::superminhasher::{self, SuperMinHash};
+use probminhash::superminhasher2::{self, SuperMinHash2};
+use rand::Rng as _;
+use rand::RngCore;
+use rayon::prelude::*;
+use serde_json::{json, Value};
+
+/// outcome of an estimator call
+#[derive(Debug, Clone, PartialEq)]
+enum R {
+    Num(f64),
+    /// returned value had type f32
+    Num32(f32),
+    Reported, // Err or panic
+}
+
+fn call<F: FnOnce() -> Option<f64> + std::panic::UnwindSafe>(f: F) -> R {
+    match catch(f) {
+        Ok(Some(x)) => R::Num(x),
+        Ok(None) => R::Reported,
+        Err(_) => R::Reported,
+    }
+}
+fn call32<F: FnOnce() -> Option<f32> + std::panic::UnwindSafe>(f: F) -> R {
+    match catch(f) {
+        Ok(Some(x)) => R::Num32(x),
+        Ok(None) => R::Reported,
+        Err(_) => R::Reported,
+    }
+}
+
+fn ulp32(x: f32) -> f64 {
+    let b = x.to_bits();
+    if x == 0. {
+        return f32::from_bits(1) as f64;
+    }
+    let up = f32::from_bits(b + 1);
+    (up as f64 - x as f64).abs()
+}
+
+/// judge a result against agreements / length
+fn judge(name: &str, r: &R, agree: usize, len: usize) -> Result<(), String> {
+    let q = agree as f64 / len as f64;
+    match r {
+        R::Num(x) => {
+            if x.to_bits() != q.to_bits() {
+                return Err(format!("{} returned {} but agreements/length = {}/{} = {}", name, x, agree, len, q));
+            }
+        }
+        R::Num32(x) => {
+            let d = (*x as f64 - q).abs();
+            if !(d <= 0.5 * ulp32(*x) * (1. + 1e-9)) || !x.is_finite() {
+                return Err(format!("{} returned the f32 {} which is not the f32 nearest to {}/{} = {}", name, x, agree, len, q));
+            }
+        }
+        R::Reported => return Err(format!("{} reported an error on two sketches of equal length {}", name, len)),
+    }
+    Ok(())
+}
+
+fn judge_mismatch(name: &str, r: &R, la: usize, lb: usize) -> Result<(), String> {
+    match r {
+        R::Reported => Ok(()),
+        other => Err(format!("{} computed {:?} on sketches of unequal lengths {} and {} instead of reporting the mismatch", name, other, la, lb)),
+    }
+}
+
+/// plant agreements: returns b derived from a with `pattern`, and the number of agreements
+fn plant<T: Clone + PartialEq>(a: &[T], alt: &[T], pattern: u32, rng: &mut Rng) -> (Vec<T>, usize) {
+    let n = a.len();
+    let mut b: Vec<T> = alt.to_vec();
+    let mut agree_at = vec![false; n];
+    match pattern {
+        0 => {}                                          // none
+        1 => agree_at.iter_mut().for_each(|x| *x = true), // all
+        2 => agree_at[0] = true,                          // first only
+        3 => agree_at[n - 1] = true,                      // last only
+        4 => {
+            // all but last
+            agree_at.iter_mut().for_each(|x| *x = true);
+            agree_at[n - 1] = false;
+        }
+        5 => {
+            agree_at.iter_mut().for_each(|x| *x = true);
+            agree_at[0] = false;
+        }
+        _ => {
+            let p = rng.random::<f64>();
+            for x in agree_at.iter_mut() {
+                *x = rng.random::<f64>() < p;
+            }
+        }
+    }
+    for i in 0..n {
+        if agree_at[i] {
+            b[i] = a[i].clone();
+        }
+    }
+    // alt[i] != a[i] is guaranteed by the callers, so the count is exact
+    let cnt = agree_at.iter().filter(|x| **x).count();
+    (b, cnt)
+}
+
+struct Out {
+    ncalls: u64,
+    fails: Vec<(String, String)>,
+    case: Value,
+}
+
+fn counting_case(i: u64, seed: u64) -> Out {
+    let mut rng = rng_from(mix(&[seed, i]));
+    let n: usize = match rng.random_range(0..8) {
+        0 => 1,
+        1 => 2,
+        2 => 3,
+        3 | 4 => rng.random_range(4..100),
+        5 | 6 => rng.random_range(100..1000),
+        _ => rng.random_range(1000..5001),
+    };
+    let pattern = rng.random_range(0..9u32);
+    let pname = ["none", "all", "first_only", "last_only", "all_but_last", "all_but_first", "random", "random", "random"][pattern as usize];
+    let mut out = Out { ncalls: 0, fails: vec![], case: json!({"length": n, "pattern": pname, "element_type_round": i % 6}) };
+    macro_rules! chk {
+        ($key:expr, $res:expr) => {
+            out.ncalls += 1;
+            if let Err(w) = $res {
+                out.fails.push(($key.to_string(), w));
+            }
+        };
+    }
+    // a longer / shorter partner for the mismatch clause
+    let n2: usize = if rng.random_range(0..2) == 0 { n + rng.random_range(1..4usize) } else { n.saturating_sub(rng.random_range(1..4usize)).max(if n > 1 { 1 } else { 2 }) };
+    match i % 6 {
+        0 => {
+            // u64 items
+            let a: Vec<u64> = (0..n).map(|_| rng.next_u64() | 1).collect();
+            let alt: Vec<u64> = a.iter().map(|x| x ^ 0x10).collect();
+            let (b, cnt) = plant(&a, &alt, pattern, &mut rng);
+            let c: Vec<u64> = (0..n2).map(|k| if k < n { a[k] } else { 7 }).collect();
+            let (a1, b1) = (a.clone(), b.clone());
+            chk!("C14/compute_probminhash_jaccard", judge("jaccard::compute_probminhash_jaccard", &call(move || Some(jaccard::compute_probminhash_jaccard(&a1, &b1))), cnt, n));
+            let (a1, b1) = (a.clone(), b.clone());
+            chk!("C14/compute_probminhash_jaccard", judge("jaccard::compute_probminhash_jaccard (swapped)", &call(move || Some(jaccard::compute_probminhash_jaccard(&b1, &a1))), cnt, n));
+            let a1 = a.clone();
+            chk!("C14/compute_probminhash_jaccard", judge("jaccard::compute_probminhash_jaccard (identical)", &call(move || Some(jaccard::compute_probminhash_jaccard(&a1, &a1))), n, n));
+            let (a1, c1) = (a.clone(), c.clone());
+            chk!("C14/length-mismatch", judge_mismatch("jaccard::compute_probminhash_jaccard", &call(move || Some(jaccard::compute_probminhash_jaccard(&a1, &c1))), n, n2));
+            let (a1, b1) = (a.clone(), b.clone());
+            chk!("C14/jaccard::get_jaccard_index_estimate", judge("jaccard::get_jaccard_index_estimate", &call(move || jaccard::get_jaccard_index_estimate(&a1, &b1).ok()), cnt, n));
+            let (a1, c1) = (a.clone(), c.clone());
+            chk!("C14/length-mismatch", judge_mismatch("jaccard::get_jaccard_index_estimate", &call(move || jaccard::get_jaccard_index_estimate(&c1, &a1).ok()), n2, n));
+            // superminhasher2 free functions (f32 result)
+            let (a1, b1) = (a.clone(), b.clone());
+            chk!("C14/superminhasher2::compute_superminhash_jaccard", judge("superminhasher2::compute_superminhash_jaccard", &call32(move || superminhasher2::compute_superminhash_jaccard(&a1, &b1).ok()), cnt, n));
+            let (a1, b1) = (a.clone(), b.clone());
+            chk!("C14/superminhasher2::get_jaccard_index_estimate", judge("superminhasher2::get_jaccard_index_estimate", &call32(move || superminhasher2::get_jaccard_index_estimate(&b1, &a1).ok()), cnt, n));
+            let (a1, c1) = (a.clone(), c.clone());
+            chk!("C14/length-mismatch", judge_mismatch("superminhasher2::compute_superminhash_jaccard", &call32(move || superminhasher2::compute_superminhash_jaccard(&a1, &c1).ok()), n, n2));
+        }
+        1 => {
+            // Strings as items
+            let a: Vec<String> = (0..n).map(|k| format!("item{}-{}", k, rng.next_u32())).collect();
+            let alt: Vec<String> = a.iter().map(|x| format!("{}x", x)).collect();
+            let (b, cnt) = plant(&a, &alt, pattern, &mut rng);
+            let (a1, b1) = (a.clone(), b.clone());
+            chk!("C14/compute_probminhash_jaccard", judge("jaccard::compute_probminhash_jaccard<String>", &call(move || Some(jaccard::compute_probminhash_jaccard(&a1, &b1))), cnt, n));
+            let (a1, b1) = (a.clone(), b.clone());
+            chk!("C14/jaccard::get_jaccard_index_estimate", judge("jaccard::get_jaccard_index_estimate<String>", &call(move || jaccard::get_jaccard_index_estimate(&b1, &a1).ok()), cnt, n));
+        }
+        2 => {
+            // u16 / u32 registers
+            let a: Vec<u16> = (0..n).map(|_| (rng.next_u32() as u16) | 1).collect();
+            let alt: Vec<u16> = a.iter().map(|x| x ^ 2).collect();
+            let (b, cnt) = plant(&a, &alt, pattern, &mut rng);
+            let (a1, b1) = (a.clone(), b.clone());
+            chk!("C14/jaccard::get_jaccard_index_estimate", judge("jaccard::get_jaccard_index_estimate<u16>", &call(move || jaccard::get_jaccard_index_estimate(&a1, &b1).ok()), cnt, n));
+            let a32: Vec<u32> = a.iter().map(|x| *x as u32 * 65537).collect();
+            let b32: Vec<u32> = b.iter().map(|x| *x as u32 * 65537).collect();
+            let (a1, b1) = (a32.clone(), b32.clone());
+            chk!("C14/superminhasher2::compute_superminhash_jaccard", judge("superminhasher2::compute_superminhash_jaccard<u32>", &call32(move || superminhasher2::compute_superminhash_jaccard(&a1, &b1).ok()), cnt, n));
+            let (a1, b1) = (a32.clone(), b32.clone());
+            chk!("C14/compute_probminhash_jaccard", judge("jaccard::compute_probminhash_jaccard<u32>", &call(move || Some(jaccard::compute_probminhash_jaccard(&b1, &a1))), cnt, n));
+        }
+        3 => {
+            // f64 sketches through the SuperMinHash free functions and the method
+            let a: Vec<f64> = (0..n).map(|k| k as f64 + rng.random::<f64>()).collect();
+            let alt: Vec<f64> = a.iter().map(|x| x + 0.25).collect();
+            let (b, cnt) = plant(&a, &alt, pattern, &mut rng);
+            let c: Vec<f64> = (0..n2).map(|k| if k < n { a[k] } else { 0.5 }).collect();
+            let (a1, b1) = (a.clone(), b.clone());
+            chk!("C14/superminhasher::compute_superminhash_jaccard", judge("superminhasher::compute_superminhash_jaccard<f64>", &call(move || superminhasher::compute_superminhash_jaccard(&a1, &b1).ok()), cnt, n));
+            let (a1, b1) = (a.clone(), b.clone());
+            chk!("C14/superminhasher::get_jaccard_index_estimate", judge("superminhasher::get_jaccard_index_estimate<f64>", &call(move || superminhasher::get_jaccard_index_estimate(&b1, &a1).ok()), cnt, n));
+            let (a1, c1) = (a.clone(), c.clone());
+            chk!("C14/length-mismatch", judge_mismatch("superminhasher::compute_superminhash_jaccard", &call(move || superminhasher::compute_superminhash_jaccard(&a1, &c1).ok()), n, n2));
+            let (a1, b1) = (a.clone(), b.clone());
+            chk!("C14/jaccard::get_jaccard_index_estimate", judge("jaccard::get_jaccard_index_estimate<f64>", &call(move || jaccard::get_jaccard_index_estimate(&a1, &b1).ok()), cnt, n));
+        }
+        4 => {
+            // f32 sketches (f32 result)
+            let a: Vec<f32> = (0..n).map(|k| k as f32 + 0.5 * rng.random::<f32>()).collect();
+            let alt: Vec<f32> = a.iter().map(|x| x + 0.25).collect();
+            let (b, cnt) = plant(&a, &alt, pattern, &mut rng);
+            let (a1, b1) = (a.clone(), b.clone());
+            chk!("C14/superminhasher::compute_superminhash_jaccard", judge("superminhasher::compute_superminhash_jaccard<f32>", &call32(move || superminhasher::compute_superminhash_jaccard(&a1, &b1).ok()), cnt, n));
+            let (a1, b1) = (a.clone(), b.clone());
+            chk!("C14/superminhasher::get_jaccard_index_estimate", judge("superminhasher::get_jaccard_index_estimate<f32>", &call32(move || superminhasher::get_jaccard_index_estimate(&b1, &a1).ok()), cnt, n));
+            let a1 = a.clone();
+            chk!("C14/superminhasher::compute_superminhash_jaccard", judge("superminhasher::compute_superminhash_jaccard<f32> (identical)", &call32(move || superminhasher::compute_superminhash_jaccard(&a1, &a1).ok()), n, n));
+        }
+        _ => {
+            // methods on the sketchers: the receiver's sketch comes from really sketching items
+            let m = n.min(2000);
+            let nitems = rng.random_range(1..50);
+            let items = fresh_ids(&mut rng, nitems, 0);
+            let mut s1 = SuperMinHash::<f64, u64, FnvHasher>::new(m, Default::default());
+            s1.sketch_slice(&items).unwrap();
+            let a: Vec<f64> = s1.get_hsketch().clone();
+            let alt: Vec<f64> = a.iter().map(|x| x + 0.125).collect();
+            let (b, cnt) = plant(&a, &alt, pattern.min(8), &mut rng);
+            chk!("C14/SuperMinHash::get_jaccard_index_estimate", judge("SuperMinHash::get_jaccard_index_estimate", &call(std::panic::AssertUnwindSafe(|| s1.get_jaccard_index_estimate(&b).ok())), cnt, m));
+            let mut longer = b.clone();
+            longer.push(1.5);
+            chk!("C14/length-mismatch", judge_mismatch("SuperMinHash::get_jaccard_index_estimate", &call(std::panic::AssertUnwindSafe(|| s1.get_jaccard_index_estimate(&longer).ok())), m, m + 1));
+            if m > 1 {
+                chk!("C14/length-mismatch", judge_mismatch("SuperMinHash::get_jaccard_index_estimate", &call(std::panic::AssertUnwindSafe(|| s1.get_jaccard_index_estimate(&b[..m - 1]).ok())), m, m - 1));
+            }
+            let mut s2 = SuperMinHash2::<u64, u64, FnvHasher>::new(m, Default::default());
+            s2.sketch_slice(&items).unwrap();
+            let a2: Vec<u64> = s2.get_hsketch().clone();
+            let alt2: Vec<u64> = a2.iter().map(|x| x ^ 1).collect();
+            let (b2, cnt2) = plant(&a2, &alt2, pattern.min(8), &mut rng);
+            chk!("C14/SuperMinHash2::get_jaccard_index_estimate", judge("SuperMinHash2::get_jaccard_index_estimate", &call(std::panic::AssertUnwindSafe(|| s2.get_jaccard_index_estimate(&b2).ok())), cnt2, m));
+            let mut longer2 = b2.clone();
+            longer2.push(3);
+            chk!("C14/length-mismatch", judge_mismatch("SuperMinHash2::get_jaccard_index_estimate", &call(std::panic::AssertUnwindSafe(|| s2.get_jaccard_index_estimate(&longer2).ok())), m, m + 1));
+        }
+    }
+    out
+}
+
+// ------------------------------------------------------------------------------------------------
+// MLE: runs in a child process (the optimiser logs every iteration to the terminal, and an abort must not kill the monitor)
+
+fn mle_cases(seed: u64, n: usize) -> Vec<(f64, u64, &'static str, usize, usize, usize, bool)> {
+    // (b, m, shape, both, a_only, b_only, u16)
+    let shapes: Vec<(&str, usize, usize, usize)> = vec![
+        ("nested_1_in_2", 1, 0, 1),
+        ("nested_1_in_4", 1, 0, 3),
+        ("nested_100_in_10000", 100, 0, 9900),
+        ("nested_half", 500, 0, 500),
+        ("one_vs_100000", 1, 0, 100_000),
+        ("identical", 300, 0, 0),
+        ("identical_single", 1, 0, 0),
+        ("disjoint", 0, 400, 600),
+        ("ordinary", 1000, 1000, 1000),
+        ("low_j", 50, 2000, 3000),
+        ("high_j", 2000, 30, 20),
+        ("small_unequal", 2, 1, 30),
+    ];
+    let mut rng = rng_from(seed);
+    let mut v = Vec::new();
+    for i in 0..n {
+        let b = [1.001, 1.1, 1.5, 2.0][i % 4];
+        let m = [64u64, 256, 4096][(i / 4) % 3];
+        let s = &shapes[(i / 12 + rng.random_range(0..shapes.len())) % shapes.len()];
+        v.push((b, m, s.0, s.1, s.2, s.3, rng.random_range(0..2) == 0));
+    }
+    v
+}
+
+pub fn child_mle(a: &[String]) -> i32 {
+    quiet_panics();
+    let seed: u64 = a.first().and_then(|s| s.parse().ok()).unwrap_or(1);
+    let n: usize = a.get(1).and_then(|s| s.parse().ok()).unwrap_or(10);
+    let cases = mle_cases(seed, n);
+    let mut rng = rng_from(mix(&[seed, 77]));
+    for (i, (b, m, shape, both, ao, bo, u16reg)) in cases.iter().enumerate() {
+        let ntot = both + ao + bo;
+        let (av, q) = setsketch_a_q(*b, *m, ntot as f64, 1e-6);
+        let q = if *u16reg { q.min(65534) } else { q };
+        let params = SetSketchParams::new(*b, *m, av, q);
+        let ids = fresh_ids(&mut rng, ntot, 0);
+        let sa: Vec<u64> = ids[..both + ao].to_vec();
+        let mut sb: Vec<u64> = ids[..*both].to_vec();
+        sb.extend_from_slice(&ids[both + ao..]);
+        let mle = MleJaccard::from(params);
+        let res = if *u16reg {
+            let mut s1 = SetSketcher::<u16, u64, FnvHasher>::new(params, Default::default());
+            let mut s2 = SetSketcher::<u16, u64, FnvHasher>::new(params, Default::default());
+            s1.sketch_slice(&sa).unwrap();
+            s2.sketch_slice(&sb).unwrap();
+            let (g1, g2) = (s1.get_signature().clone(), s2.get_signature().clone());
+            (catch(std::panic::AssertUnwindSafe(|| mle.get_mle(&g1, &g2))), catch(std::panic::AssertUnwindSafe(|| mle.get_mle(&g2, &g1))))
+        } else {
+            let mut s1 = SetSketcher::<u32, u64, FnvHasher>::new(params, Default::default());
+            let mut s2 = SetSketcher::<u32, u64, FnvHasher>::new(params, Default::default());
+            s1.sketch_slice(&sa).unwrap();
+            s2.sketch_slice(&sb).unwrap();
+            let (g1, g2) = (s1.get_signature().clone(), s2.get_signature().clone());
+            (catch(std::panic::AssertUnwindSafe(|| mle.get_mle(&g1, &g2))), catch(std::panic::AssertUnwindSafe(|| mle.get_mle(&g2, &g1))))
+        };
+        for (dir, r) in [("ab", res.0), ("ba", res.1)] {
+            let txt = match r {
+                Ok(Some(x)) => format!("SOME {:e}", x),
+                Ok(None) => "NONE".to_string(),
+                Err(msg) => format!("PANIC {}", msg.replace('\n', " ")),
+            };
+            println!("\nMLERES {} {} b={} m={} shape={} both={} a_only={} b_only={} regs={} :: {}", i, dir, b, m, shape, both, ao, bo, if *u16reg { "u16" } else { "u32" }, txt);
+        }
+    }
+    println!("\nMLEDONE {}", cases.len());
+    0
+}
 
 pub fn run(rep: &mut Report) {
-    let _ = rep;
-    eprintln!("C14 not implemented yet");
+    quiet_panics();
+    rep.rule = "counting estimators (jaccard::compute_probminhash_jaccard, jaccard::get_jaccard_index_estimate, SuperMinHash::get_jaccard_index_estimate, superminhasher::{compute_superminhash_jaccard,get_jaccard_index_estimate}, SuperMinHash2::get_jaccard_index_estimate, superminhasher2::{compute_superminhash_jaccard,get_jaccard_index_estimate}): pairs of sketches of element types u64/String/u16/u32/f64/f32 and real sketcher states, lengths 1..5000, planted agreement patterns (none, all, first only, last only, all but first/last, random); oracle = agreements/length (bit-exact f64, nearest f32 for f32 results), both argument orders, identical => 1, unequal lengths => Err or panic (never a number). MLE: get_mle in child processes on sketch pairs from same-parameter sketchers (nested, very unequal, identical, disjoint, ordinary; b in {1.001,1.1,1.5,2}; m in {64,256,4096}; both argument orders): must return Some(j) with j finite in [0,1]; a panic, None, NaN or out-of-range value is a violation. Distinct = cases; non-trivial: length >= 2 or any MLE case".into();
+    // ---- counting estimators
+    if rep.want("counting") {
+        let n: u64 = rep.tier.pick(12_000, 400_000);
+        let seed = subseed(rep.seed, "C14/counting", &[]);
+        let res: Vec<(u64, Result<Out, String>)> = (0..n).into_par_iter().map(|i| (i, catch(move || counting_case(i, seed)))).collect();
+        for (i, r) in res {
+            match r {
+                Ok(o) => {
+                    rep.evaluations += o.ncalls;
+                    rep.count("counting.estimator_calls", o.ncalls);
+                    rep.distinct.insert(mix(&[i, fnv64(o.case.to_string().as_bytes())]));
+                    if i < 3 {
+                        rep.sample(o.case.clone());
+                    }
+                    for (k, w) in o.fails {
+                        rep.violation(&k, "counting", w, o.case.clone());
+                    }
+                }
+                Err(p) => rep.violation("C14/panic", "counting", format!("harness-level panic: {}", p), json!({"case": i})),
+            }
+        }
+    }
+    // ---- MLE in child processes
+    if rep.want("mle") {
+        let nchild = rep.tier.pick(8, 32);
+        let per = rep.tier.pick(12, 48);
+        let exe = std::env::current_exe().unwrap();
+        let seed = subseed(rep.seed, "C14/mle", &[]);
+        let children: Vec<_> = (0..nchild)
+            .map(|c| {
+                std::process::Command::new(&exe)
+                    .args(["child", "c14mle", &mix(&[seed, c as u64]).to_string(), &per.to_string()])
+                    .env("RUST_BACKTRACE", "0")
+                    .env_remove("RUST_LOG")
+                    .stdout(std::process::Stdio::piped())
+                    .stderr(std::process::Stdio::null())
+                    .spawn()
+            })
+            .collect();
+        let mut nres = 0u64;
+        let mut noutcome: std::collections::BTreeMap<String, u64> = Default::default();
+        for (ci, c) in children.into_iter().enumerate() {
+            match c.and_then(|c| c.wait_with_output()) {
+                Ok(o) => {
+                    let text = String::from_utf8_lossy(&o.stdout);
+                    let mut done = false;
+                    for line in text.lines() {
+                        if let Some(rest) = line.strip_prefix("MLERES ") {
+                            nres += 1;
+                            let (desc, outcome) = rest.split_once(" :: ").unwrap_or((rest, "?"));
+                            let shape = desc.split("shape=").nth(1).and_then(|s| s.split(' ').next()).unwrap_or("?").to_string();
+                            rep.distinct.insert(fnv64(desc.as_bytes()));
+                            if nres <= 2 {
+                                rep.sample(json!({"mle_case": desc, "outcome": outcome}));
+                            }
+                            if let Some(v) = outcome.strip_prefix("SOME ") {
+                                let x: f64 = v.trim().parse().unwrap_or(f64::NAN);
+                                if !(x.is_finite() && (0. ..=1.).contains(&x)) {
+                                    *noutcome.entry("out_of_range".into()).or_default() += 1;
+                                    rep.violation(&format!("C14/mle-out-of-range/{}", shape), "mle", format!("get_mle returned {} for {}", v, desc), json!({"case": desc}));
+                                } else {
+                                    *noutcome.entry("some_in_range".into()).or_default() += 1;
+                                }
+                            } else if outcome.starts_with("NONE") {
+                                *noutcome.entry("none".into()).or_default() += 1;
+                                rep.violation(&format!("C14/mle-none/{}", shape), "mle", format!("get_mle returned None for {}", desc), json!({"case": desc}));
+                            } else {
+                                *noutcome.entry("panic".into()).or_default() += 1;
+                                rep.violation(&format!("C14/mle-abort/{}", shape), "mle", format!("get_mle aborted for {} : {}", desc, outcome), json!({"case": desc}));
+                            }
+                        } else if line.starts_with("MLEDONE") {
+                            done = true;
+                        }
+                    }
+                    if !done {
+                        // the child died (abort, not an unwinding panic) before finishing its cases
+                        rep.violation("C14/mle-process-abort", "mle", format!("MLE child process {} died before finishing (exit {:?})", ci, o.status.code()), json!({"child": ci}));
+                    }
+                }
+                Err(e) => rep.inconclusive.push(format!("MLE child {} could not be run: {}", ci, e)),
+            }
+        }
+        rep.evaluations += nres;
+        rep.count("mle.calls", nres);
+        rep.extra.insert("mle_outcomes".into(), json!(noutcome));
+    }
 }
-pub fn child_mle(_a: &[String]) -> i32 { 2 }
